@@ -2,14 +2,17 @@ import VarmqVerif.Proofs.Pool
 import VarmqVerif.Proofs.Res
 import VarmqVerif.Proofs.Config
 import VarmqVerif.Proofs.Trim
+import VarmqVerif.Proofs.Reap
 /-!
   C18 — pool size tracks configuration; idle workers are trimmed; Stop leaks nothing (partial).
   Proved: per node exactly one goroutine will keep serving it while it is idle/held/in flight and
   none once it is stopped or cached (server accounting), at most two for the moment a stopped node
   is recycled before its old goroutine saw the sentinel; nodes in use are bounded by curProcessing
-  ≤ largest limit (Res); the minimum-idle arithmetic. The goroutine census after Stop and the
-  trimming by the reaper are evaluated on explored executions by the predicate (exact census from
-  the scheduler's registry). Wall-clock "idle that long" is abstracted to tick events.
+  ≤ largest limit (Res); the minimum-idle arithmetic; "keeps at least one idle worker while running"
+  without an idle expiry (Trim) and with one (Reap: the reaper's passes, per-run stop channel).
+  The goroutine census after Stop and "retires idle workers beyond the minimum once they have been
+  idle that long" are evaluated on explored executions by the predicate (exact census from the
+  scheduler's registry). Wall-clock "idle that long" is abstracted to tick events.
 -/
 namespace VarmqVerif.Props.C18
 open VarmqVerif
@@ -46,5 +49,30 @@ theorem tune_keeps_minimum {s s' : Trim.State} {m : Nat} (h : Trim.step false s 
     running pool with nobody out and no idle worker is reachable -/
 theorem old_shrink_can_empty_the_pool :
     ∃ s, Trim.Reach true s ∧ s.running = true ∧ (∀ g, s.busy g = false) ∧ s.idle = 0 := Trim.old_shrink_can_empty_the_pool
+
+/-! with an idle-worker expiry (model `Reap`: pool nodes by identity, any number of runs, reaper passes with a snapshot
+    split at numMinIdleWorkers() ≥ 1, removal only by the reaper of the current run while its stop channel is open) -/
+
+/-- "keeps at least one idle worker while running": a running pool always has a worker, idle or out with a job -/
+theorem reaped_never_empty_handed {s : Reap.State} (h : Reap.Reach false s) (hr : s.running = true) :
+    s.idle ≠ [] ∨ s.out ≠ [] := Reap.never_empty_handed h hr
+
+/-- … and an idle one whenever nobody is out: the reaper never takes the last worker -/
+theorem reaped_idle_worker_kept {s : Reap.State} (h : Reap.Reach false s) (hr : s.running = true) (hq : s.out = []) :
+    1 ≤ s.idle.length := Reap.idle_worker_kept h hr hq
+
+/-- the first numMinIdleWorkers() nodes of the reaper's snapshot survive its pass: each is idle or out with a job -/
+theorem reaper_spares_protected {s : Reap.State} {p : Reap.Pass} (h : Reap.Reach false s) (hr : s.running = true)
+    (hl : s.live = true) (hp : s.pass = some p) : ∀ x ∈ p.prot, x ∈ s.idle ∨ x ∈ s.out :=
+  Reap.reaper_spares_protected h hr hl hp
+
+/-- the reaper of a run that has ended removes nothing (the stop-channel check of fix b9eba0f) -/
+theorem ended_run_cannot_remove {s : Reap.State} {r n : Nat} {ok : Bool} (hne : r ≠ s.gen ∨ s.live = false) :
+    ∀ s', Reap.step false s (.rmv r n ok) ≠ .ok s' := Reap.ended_run_cannot_remove hne
+
+/-- the defect repaired by b9eba0f, as a theorem: without that check the pass of an ended run removes the only idle
+    worker of the next run -/
+theorem old_reaper_can_empty_the_pool :
+    ∃ s, Reap.Reach true s ∧ s.running = true ∧ s.out = [] ∧ s.idle = [] := Reap.old_reaper_can_empty_the_pool
 
 end VarmqVerif.Props.C18
